@@ -394,6 +394,13 @@ pub fn model_pool(tier: Tier) -> Vec<(String, Vec<u8>)> {
         }
         out.push((format!("giant-{name}-{n}"), m.to_bytes()));
     }
+    // a file of several MB (300 000 dictionary records): decoded size in the tens of MB
+    {
+        let mut m = ModelSpec { char_window_size: 1, type_window_size: 1, bias: -2, ..Default::default() };
+        m.char_ngram_model.push(NgramData { ngram: "a".into(), weights: vec![1, -1] });
+        m.dict_model = (0..300_000usize).map(|i| { let mut k = i; let w: String = (0..6).map(|_| { let c = (b'c' + (k % 20) as u8) as char; k /= 20; c }).collect(); WordWeightRecord { word: w, weights: vec![(i % 7) as i32 - 3; 7], comment: String::new() } }).collect();
+        out.push(("300000-dictionary-records".into(), m.to_bytes()));
+    }
     // one long vector per file (dictionary words of 255..1024 characters, window 255, 256/512/600 tag candidates)
     for (d, spec, _) in crate::c01::long_vector_family(Tier::Quick).into_iter().step_by(tier.pick(3, 1)) {
         out.push((d, spec.to_bytes()));
